@@ -302,6 +302,14 @@ m("ident-scan-from-one", ["C13"], "keep", "lexer.go",
   "	if char.IsIdentStart(l.peek(0)) {\n		i := 0\n		for l.peekOk(i) && char.IsIdentPart(l.peek(i)) {",
   "	if char.IsIdentStart(l.peek(0)) {\n		i := 1\n		for l.peekOk(i) && char.IsIdentPart(l.peek(i)) {")
 
+
+m("number-follow-check-dropped", ["C14"], "break", "lexer.go",
+  "	if l.peekOk(0) && char.IsIdentPart(l.peek(0)) {\n		if noPanic {\n			l.Token.Kind = token.TokenBad\n			return\n		}\n\n		l.panicf(\"number literal cannot follow identifier without any spaces\")\n	}\n}",
+  "}", "1from lexes as <int> FROM")
+m("number-follow-check-via-local", ["C14"], "keep", "lexer.go",
+  "	if l.peekOk(0) && char.IsIdentPart(l.peek(0)) {\n		if noPanic {\n			l.Token.Kind = token.TokenBad",
+  "	if glued := l.peekOk(0) && char.IsIdentPart(l.peek(0)); glued {\n		if noPanic {\n			l.Token.Kind = token.TokenBad")
+
 def sh(cmd, cwd=None):
     return subprocess.run(cmd, shell=True, cwd=cwd, capture_output=True, text=True)
 
